@@ -354,3 +354,35 @@ func (d *Dynamo) Count() int {
 }
 
 var _ = keyCondRx
+
+// Items lists all stored items (deep copies).
+func (d *Dynamo) Items() []map[string]AV {
+	d.mu.Lock()
+	defer d.mu.Unlock()
+	var res []map[string]AV
+	var ids []string
+	for id := range d.items {
+		ids = append(ids, id)
+	}
+	sort.Strings(ids)
+	for _, id := range ids {
+		var cs []int64
+		for c := range d.items[id] {
+			cs = append(cs, c)
+		}
+		sort.Slice(cs, func(i, j int) bool { return cs[i] < cs[j] })
+		for _, c := range cs {
+			res = append(res, cloneItem(d.items[id][c]))
+		}
+	}
+	return res
+}
+
+// Str and Num are helpers for building attribute values.
+func Str(s string) AV { return AV{S: &s} }
+
+// Num builds an N attribute.
+func Num(n int64) AV { s := strconv.FormatInt(n, 10); return AV{N: &s} }
+
+// Bool builds a BOOL attribute.
+func Bool(b bool) AV { return AV{BOOL: &b} }
